@@ -1332,6 +1332,16 @@ def check_rejected_configs(run, exe, scratch):
         ("meta:keepHills", meta(add=["  keepHills on"])),
         ("abf:outputFreq-not-a-multiple-of-sharedFreq", ["colvarsTrajFrequency 0"] + abf(["  outputFreq 3"])),
     ]
+    # "cv bias a share" on a walker whose engine has no replica interface: an error, nothing else
+    run.count("rejected-config:script-share-without-replicas", True)
+    run.dist("rejected-config")
+    rc, out, err = V.run_lines(exe, ["natoms 1", "new", "config EOF"] + scen.abf_conf({"nd": 1, "nbins": [3], "freq": 0, "script": True}) +
+                               ["EOF", "pos 1 0 0 0x1p-1", "step", "script cv bias a share", "dumpshared a"], timeout=60, cwd=d)
+    sl = [x for x in out if x.startswith("SCRIPT")]
+    dm = scen.parse_shared(out)
+    if rc != 0 or not sl or "err=ok" in sl[0] or dm is None or dm.get("shared_on") != 0:
+        run.violation("config:share-without-replicas", "\"cv bias a share\" without a replica interface: rc=%s, %s, shared_on=%s (expected: an error, "
+                      "and sharing stays off)" % (rc, sl, dm and dm.get("shared_on")), {"kind": "rejected-config", "name": "script-share-without-replicas"})
     for name, conf in cases:
         run.count("rejected-config:" + name, True)
         run.dist("rejected-config")
